@@ -81,3 +81,10 @@ pub fn depot_activity(location: Location, tw_start: Float, tw_end: Float) -> Act
         commute: None,
     }
 }
+
+/// Stub for `std::sync::Arc::drop_slow` (`#[kani::stub(std::sync::Arc::drop_slow, crate::verif_support::arc_drop_noop)]`):
+/// the payload of an `Arc` whose last reference goes away is leaked instead of dropped. CBMC cannot
+/// constant-fold reference counts or `Vec` lengths stored in heap objects, so every `Arc` drop otherwise
+/// explores the complete drop glue of `Single`/`Actor`/`Dimensions` (with dynamic dispatch over every
+/// `dyn Any` payload) up to the unwinding bound. Drop glue is not the subject of any property here.
+pub fn arc_drop_noop<T: ?Sized, A: std::alloc::Allocator>(_this: &mut Arc<T, A>) {}
